@@ -56,7 +56,11 @@ def run_job(kind, key):
 
 
 def records_for(prop, modname='props.cxx'):
-    recs, info = all_obligations()
+    try:
+        recs, info = all_obligations()
+    except CheckerError as e:
+        # the deductive part cannot analyse this tree: reported as a checker error, but the bounded part of the property still runs (a violation it finds takes precedence)
+        return [], [f'CHECKER-ERROR CheckerError: {e}'], dict(cxx_error=str(e))
     n = len([r for r in recs if prop in r['props']])
     if n == 0:
         raise CheckerError(f'no obligations generated for {prop}')
